@@ -5,8 +5,10 @@ Same machinery and the same three comparisons (A tests, B decision function, C r
 (rules_c01.py).  Covered: Zeta (Devroye's rejection from the Pareto-like envelope: proposal floor(U^(-1/(s-1))), b = 2^(s-1), acceptance
 V X (T-1) b <= T (b-1), the infinite-proposal return) and Zipf (Crease's rejection from the piecewise envelope: normaliser t, its
 inverse CDF on the three parameter regimes s = 1, s -> infinity and otherwise, proposal floor(B) + 1, acceptance ratio x^-s resp. x^-s B^s).
-Not covered (state carried across iterations or several nested loops; reported in the evidence as not examined): Binomial (BINV, BTPE),
-Poisson (Knuth, Ahrens-Dieter), Geometric, StandardGeometric, Hypergeometric (HIN, H2PE).  The pmf itself is not decided anywhere.
+Samplers whose loops carry state are compared as transition systems (algsum.summarize_ts: the function is cut at its entry and at every loop
+header; a segment runs from one cut point to the next; at a cut point the loop-carried variables are symbols): Poisson/Knuth, StandardGeometric,
+BINV, BTPE (four cut points), plus Binomial::new.  Not covered yet: Poisson's Ahrens-Dieter rejection method, Geometric, Hypergeometric (HIN, H2PE).
+The pmf itself is not decided anywhere.
 """
 CONFIGS_THOROUGH = ["serde", "release"]
 
@@ -71,9 +73,103 @@ SPECS += [
 ]
 
 
+def _btpe_spec():
+    """Kachitvichyanukul & Schmeiser (1988), algorithm BTPE, in the notation of the paper; `as u64` casts are transparent in the terms."""
+    q = "(1 - p)"
+    np_ = "(n*p)"
+    npq = "(n*p*(1 - p))"
+    f_m = "(n*p + p)"
+    x_m = "(m + Rational(1,2))"
+    x_l = "(%s - p1)" % x_m
+    x_r = "(%s + p1)" % x_m
+    c = "(Rational(134,1000) + Rational(41,2)/(Rational(153,10) + m))"
+    p2 = "(p1*(1 + 2*%s))" % c
+    lam_l = "lam_((%s - %s)/(%s - %s*p))" % (f_m, x_l, f_m, x_l)
+    lam_r = "lam_((%s - %s)/(%s*%s))" % (x_r, f_m, x_r, q)
+    p3 = "(%s + %s/%s)" % (p2, c, lam_l)
+    p4 = "(%s + %s/%s)" % (p3, c, lam_r)
+    s_ = "(p/%s)" % q
+    a_ = "(%s*(n + 1))" % s_
+    x2 = "(%s + (u - p1)/%s)" % (x_l, c)
+    regions = {
+        "2": ("f64_to_u64(%s)" % x2, "(v*%s + 1 - Abs(%s - %s)/p1)" % (c, x2, x_m)),
+        "3": ("f64_to_u64(%s + ln(v)/%s)" % (x_l, lam_l), "(v*(u - %s)*%s)" % (p2, lam_l)),
+        "4": ("(%s - ln(v)/%s)" % (x_r, lam_r), "(v*(u - %s)*%s)" % (p3, lam_r)),
+    }
+    rules = {
+        "entry": [(None, "goto outer")],
+        "outer": [("p1 < u", "goto r234"), (None, "goto acc1")],
+        "acc1": [("flag flipped", "return n - f64_to_u64(%s - p1*v + u)" % x_m), (None, "return f64_to_u64(%s - p1*v + u)" % x_m)],
+        "r234": [("%s < u" % p2, "goto r34"), (None, "goto r2")],
+        "r2": [("1 < %s" % regions["2"][1], "goto outer"), (None, "goto s5_2")],
+        "r34": [("%s < u" % p3, "goto r4"), (None, "goto r3")],
+        "r3": [("%s + ln(v)/%s < 0" % (x_l, lam_l), "goto outer"), (None, "goto s5_3")],
+        "r4": [("n < %s" % regions["4"][0], "goto outer"), ("call is_infinite(%s)" % regions["4"][0], "goto outer"), (None, "goto s5_4")],
+    }
+    for R, (y, v) in regions.items():
+        k = "abs_diff(%s, m)" % y
+        rho = "((%s/%s)*((%s*(%s/3 + Rational(5,8)) + Rational(1,6))/%s + Rational(1,2)))" % (k, npq, k, k, npq)
+        t = "(-Rational(1,2)*%s*%s/%s)" % (k, k, npq)
+        A = "ln(%s)" % v
+        x1, f1, z, w = "(%s + 1)" % y, "(m + 1)", "((n - m) + 1)", "((n - %s) + 1)" % y
+        ysubm_pos, ysubm_neg = "(%s - m)" % y, "(-(m - %s))" % y
+        def bound(ysm):
+            return ("(%s*ln(%s/%s) + ((n - m) + Rational(1,2))*ln(%s/%s) + %s*ln(%s*p/(%s*%s)) + stirling(%s) + stirling(%s) - stirling(%s) - stirling(%s))"
+                    % (x_m, f1, x1, z, w, ysm, w, x1, q, f1, z, x1, w))
+        rules["s5_" + R] = [("20 < %s" % k, "goto s5b_" + R), (None, "goto s51_" + R)]
+        rules["s5b_" + R] = [("%s < Rational(1,2)*%s - 1" % (k, npq), "goto s52_" + R), (None, "goto s51_" + R)]
+        rules["s51_" + R] = [("m < %s" % y, "goto loopA {f: 1, i: m, y: %s, v: %s}" % (y, v)),
+                             ("%s < m" % y, "goto loopB {f: 1, i_b: %s, y: %s, v: %s}" % (y, y, v)),
+                             (None, "goto eq_" + R)]
+        rules["eq_" + R] = [("1 < %s" % v, "goto outer"), (None, "goto acc_" + R)]
+        rules["s52_" + R] = [("%s < %s - %s" % (A, t, rho), "goto acc_" + R), ("%s + %s < %s" % (t, rho, A), "goto outer"), (None, "goto s53_" + R)]
+        # y_sub_m is computed on the branch `y > m` as (y - m) and otherwise as -(m - y): the same number, one test
+        rules["s53_" + R] = [("%s < %s" % (bound(ysubm_pos), A), "goto outer"), (None, "goto acc_" + R)]
+        rules["acc_" + R] = [("flag flipped", "return n - %s" % y), (None, "return %s" % y)]
+    rules["loopA"] = [("i + 1 == y", "goto endA"), (None, "goto loopA {i: i + 1, f: f*(%s/(i + 1) - %s)}" % (a_, s_))]
+    rules["endA"] = [("f*(%s/(i + 1) - %s) < v" % (a_, s_), "goto outer"), (None, "goto accL")]
+    rules["loopB"] = [("i_b + 1 == m", "goto endB"), (None, "goto loopB {i_b: i_b + 1, f: f/(%s/(i_b + 1) - %s)}" % (a_, s_))]
+    rules["endB"] = [("f/(%s/(i_b + 1) - %s) < v" % (a_, s_), "goto outer"), (None, "goto accL")]
+    rules["accL"] = [("flag flipped", "return n - y"), (None, "return y")]
+    return dict(name="btpe", fn="binomial::btpe", kind="ts", generic=False, bits=(64,), self_ty=None, draws=[("Uniform", "u"), ("Uniform", "v")],
+                rename={"btpe_n": "n", "btpe_p": "p", "btpe_m": "m", "btpe_p1": "p1", "lambda": "lam_", "i_195": "i_b"},
+                symbols={"n": "positive", "p": "positive", "m": "positive", "p1": "positive", "u": "positive", "v": "positive", "f": "positive", "i": "positive", "i_b": "positive", "y": "positive"},
+                nodes={"entry": [], "outer": [], "loopA": ["f", "i", "y", "v"], "loopB": ["f", "i_b", "y", "v"]},
+                rules=rules)
+
+
+SPECS += [
+    _btpe_spec(),
+    dict(name="btpe::lambda", fn="binomial::btpe::lambda", kind="alg", generic=False, bits=(64,), self_ty=None, draws=[], symbols={"a": "real"},
+         rules=[(None, "return a*(1 + Rational(1,2)*a)")]),
+    dict(name="btpe::stirling", fn="binomial::btpe::stirling", kind="alg", generic=False, bits=(64,), self_ty=None, draws=[], symbols={"a": "positive"},
+         rules=[(None, "return (13860 - (462 - (132 - (99 - 140/a**2)/a**2)/a**2)/a**2)/a/166320")]),
+]
+
+
+def _binomial_new_spec():
+    rules = {"main": [("0 <= p", "goto c1"), (None, "return Err")],
+             "c1": [("p <= 1", "goto c2"), (None, "return Err")],
+             "c2": [("p == 0", "return Result_Ok(Binomial(Method_Constant(0)))"), ("p == 1", "return Result_Ok(Binomial(Method_Constant(n)))"), (None, "goto c3")],
+             "c3": [("Rational(1,2) < p", "goto fl"), (None, "goto nf")]}
+    for tag, pe, flag in (("nf", "p", "cmp_gt(p, Rational(1,2))"), ("fl", "(1 - p)", "cmp_gt(p, Rational(1,2))")):
+        q = "(1 - %s)" % pe
+        btpe = "Result_Ok(Binomial(Method_Btpe(Btpe(n, %s, f64_to_u64(n*%s + %s), floor(Rational(2195,1000)*sqrt(n*%s*%s) - Rational(46,10)*%s) + Rational(1,2)), %s)))" % (pe, pe, pe, pe, q, q, flag)
+        binv = "Result_Ok(Binomial(Method_Binv(Binv(%s**n, %s/%s, (n + 1)*(%s/%s), n), %s)))" % (q, pe, q, pe, q, flag)
+        pois = "Result_Ok(Binomial(Method_Poisson(KnuthMethod_new(n*%s))))" % pe
+        rules[tag] = [("n*%s < 10" % pe, "goto small_" + tag), (None, "return " + btpe)]
+        # flipped: q = 1 - (1 - p) is p over the reals, and p == 1 was handled above — the Poisson limit cannot occur there
+        rules["small_" + tag] = [("%s == 1" % q, "return " + pois), (None, "return " + binv)] if tag == "nf" else [(None, "return " + binv)]
+    return dict(name="Binomial::new", fn="binomial::Binomial::new", kind="alg", generic=False, bits=(64,), self_ty=None, draws=[],
+                symbols={"n": "positive", "p": "positive"}, exclusive=[["p == 0", "p == 1"]], rules=rules)
+
+
+SPECS += [_binomial_new_spec()]
+
+
 def run(chk, F, tier):
     chk.trusted += ["Devroye (1986, X.6) rejection algorithm for the zeta distribution; Crease's rejection sampler for the Zipf law, as cited in the crate's documentation",
                     "sympy's simplification (`equal`) and 40-digit evaluation at rational points (`different`)",
                     "the reference decision lists in rules_c02.py were transcribed from those sources"]
-    rules_c01.run_specs(chk, F, SPECS, 14)
-    chk.notes.append("not examined (loop-carried state / nested loops): Binomial BINV and BTPE, Poisson Knuth and Ahrens-Dieter, Geometric, StandardGeometric, Hypergeometric HIN and H2PE")
+    rules_c01.run_specs(chk, F, SPECS, 18)
+    chk.notes.append("not examined yet: Poisson Ahrens-Dieter (RejectionMethod), Geometric, Hypergeometric HIN and H2PE")
